@@ -4,7 +4,7 @@ from . import common, v2gen
 from .common import cs, cos, cz
 
 LEVEL = "proof"
-EXTRA_TARGETS = ["Model/V2"]
+EXTRA_TARGETS = ["Model/V2", "Model/PatParse"]
 TRUSTED_BASE = [
     "Coq 8.16.1 kernel + vm_compute",
     "T1 translator (translate/t1_tables.py): PART_PATTERNS, PATTERN_PART_FIELDS, PART_FORMATS (formatter shapes), PART_ZERO_VALUES, RE_PATTERN_ESCAPES copied from /repo by ast",
@@ -14,7 +14,7 @@ TRUSTED_BASE = [
 ASSUMPTIONS = ["CPython re/datetime/strftime behave as modelled (checked by the correspondence on every run)",
                "theorems are stated for the AST pattern layer under wf; the string layer is tied to it by correspondence"]
 
-HDR = "From BV Require Import Lib.Regex Lib.RegexParse Lib.Calendar Model.V2."
+HDR = "From BV Require Import Lib.Regex Lib.RegexParse Lib.Calendar Model.V2 Model.PatAst Model.PatParse."
 
 
 def impl_parse(impl, s, p):
@@ -99,6 +99,7 @@ def run(rep, tier, seed, model_ok=True, effort=1):
     comp_items, comp_meta = [], []
     fmt_items, fmt_meta = [], []
     parse_items, parse_meta = [], []
+    bridge_items, bridge_meta = [], []
     seen_pat = set()
     for i in range(n):
         pat, info = v2gen.gen_pattern(r, allow_bad_week=False)
@@ -113,7 +114,12 @@ def run(rep, tier, seed, model_ok=True, effort=1):
             in_scope = False   # two-digit-year parts are claimed for 2001..2099 only
         if not (1000 <= v.year_y <= 9999 and 1000 <= v.year_g <= 9999):
             in_scope = False
+        nviol = len(rep.violations)
         s = roundtrip_oracle(rep, impl, v, pat, info) if in_scope else impl_format(impl, v, pat)
+        if in_scope and s and len(rep.violations) == nviol and not week53(v, pat):
+            # the AST-layer theorem must apply to this (pattern, state): checked inside Coq
+            bridge_items.append("(%s,%s)" % (v2gen.cvinfo(v), cs(pat)))
+            bridge_meta.append((pat, v, s))
         rep.case((pat, s), nontrivial=bool(s))
         rep.count("cal=%s" % info["cal"])
         rep.count("tag=%s" % (info["tag"] or "-"))
@@ -174,6 +180,12 @@ def run(rep, tier, seed, model_ok=True, effort=1):
         for i in bad:
             rep.mismatch("format_version: model differs from implementation", input=dict(pattern=fmt_meta[i][0], state=fmt_meta[i][1]._asdict(), impl=fmt_meta[i][2]))
         rep.corr_errors += errs
+        bad, errs = common.coq_eval("c02bridge", HDR, "vinfo * list N", "fun '(v, p) => bridge_ok v p", bridge_items, shard=200)
+        for i in bad:
+            rep.mismatch("string layer / AST layer bridge: the round-trip theorem's premises do not hold or the layers differ on this input",
+                         input=dict(pattern=bridge_meta[i][0], state=bridge_meta[i][1]._asdict(), rendered=bridge_meta[i][2]))
+        rep.corr_errors += errs
+        rep.count("bridge-cases", len(bridge_items))
         bad, errs = common.coq_eval("c02parse", HDR, "list N * list N * pres vinfo",
                                     "fun '(s, p, e) => eqb_pres_vinfo (parse_version_info (%s) s p) e" % cz(today), parse_items, shard=250)
         for i in bad:
